@@ -197,9 +197,25 @@ fn offset_case(off: i32, t: i64, ns: u32, rec: &Recorder, sweep: &str, tl: &mut 
         tl.nontrivial += 1;
     }
     let r = guard(|| {
-        let ltt = LocalTimeType::with_ut_offset(off).map_err(|e| (json!("LocalTimeType"), json!(format!("{e:?}"))))?;
+        // the same offset through local time types with and without designation / DST flag (rendering depends on the offset only)
+        let variant = (off as u32 ^ (t as u32)) % 4;
+        let ltt = match variant {
+            0 => LocalTimeType::with_ut_offset(off),
+            1 => LocalTimeType::new(off, false, Some(b"GMT")),
+            2 => LocalTimeType::new(off, true, None),
+            _ => LocalTimeType::new(off, true, Some(b"-00")),
+        }
+        .map_err(|e| (json!("LocalTimeType"), json!(format!("{e:?}"))))?;
         let d = DateTime::from_timespec_and_local(t, ns, ltt).map_err(|e| (json!("DateTime"), json!(format!("{e:?}"))))?;
-        check_dt(&d)
+        let mut dg = check_dt(&d)?;
+        if off.unsigned_abs() <= 1 || off % 3600 == 0 {
+            for l2 in [LocalTimeType::new(off, false, Some(b"GMT")), LocalTimeType::new(off, true, None), LocalTimeType::new(off, true, Some(b"UTC")), LocalTimeType::with_ut_offset(off)] {
+                let l2 = l2.map_err(|e| (json!("LocalTimeType"), json!(format!("{e:?}"))))?;
+                let d2 = DateTime::from_timespec_and_local(t, ns, l2).map_err(|e| (json!("DateTime"), json!(format!("{e:?}"))))?;
+                dg = dg.wrapping_add(check_dt(&d2)?);
+            }
+        }
+        Ok(dg)
     });
     match r {
         Ok(Ok(dg)) => tl.digest = tl.digest.wrapping_add(dg),
@@ -217,9 +233,11 @@ fn fields_case(y: i32, mo: u8, d: u8, h: u8, mi: u8, s: u8, ns: u32, off: i32, r
                 dg = dg.wrapping_add(check_utc(&u)?);
             }
         }
-        if let Ok(ltt) = LocalTimeType::with_ut_offset(off) {
-            if let Ok(dt) = DateTime::new(y, mo, d, h, mi, s, ns, ltt) {
-                dg = dg.wrapping_add(check_dt(&dt)?);
+        for ltt in [LocalTimeType::with_ut_offset(off), LocalTimeType::new(off, mo % 2 == 0, Some(b"ABC"))] {
+            if let Ok(ltt) = ltt {
+                if let Ok(dt) = DateTime::new(y, mo, d, h, mi, s, ns, ltt) {
+                    dg = dg.wrapping_add(check_dt(&dt)?);
+                }
             }
         }
         Ok(dg)
